@@ -4,8 +4,6 @@ import (
 	"bytes"
 	"errors"
 	"fmt"
-	"reflect"
-	"sort"
 	"strings"
 	"time"
 	"unicode/utf16"
@@ -14,19 +12,13 @@ import (
 	"oss.terrastruct.com/d2/d2ast"
 	"oss.terrastruct.com/d2/d2parser"
 	"verif/h/eng"
+	. "verif/h/u"
 )
 
 func parseMode(src string, utf16 bool) (*d2ast.Map, error) {
 	return d2parser.Parse("index.d2", strings.NewReader(src), &d2parser.ParseOptions{UTF16Pos: utf16})
 }
 
-func isNilNode(n any) bool {
-	if n == nil {
-		return true
-	}
-	v := reflect.ValueOf(n)
-	return v.Kind() == reflect.Ptr && v.IsNil()
-}
 
 // c01Parse: Parse terminates (hang watchdog in engine), does not panic (engine), returns a tree and a
 // consistent error list.
@@ -50,7 +42,7 @@ func c01Parse(utf16 bool) eng.Oracle {
 		nodes := 0
 		kinds := &strings.Builder{}
 		d2ast.Walk(m, func(n d2ast.Node) bool {
-			if isNilNode(n) {
+			if IsNilNode(n) {
 				return false
 			}
 			nodes++
@@ -80,10 +72,10 @@ func c01Entry(in string) eng.Res {
 		out += "M"
 	}
 	v, err := d2parser.ParseValue(in)
-	if (isNilNode(v)) == (err == nil) {
+	if (IsNilNode(v)) == (err == nil) {
 		return eng.Bad("ParseValue-nil/err-mismatch", fmt.Sprintf("v=%v err=%v", v, err))
 	}
-	if !isNilNode(v) {
+	if !IsNilNode(v) {
 		out += "V:" + v.Type()
 	}
 	return eng.OK(out, out != "")
@@ -201,7 +193,7 @@ func c02Oracle(u16 bool) eng.Oracle {
 		}
 		var walk func(n d2ast.Node, parent d2ast.Node)
 		walk = func(n d2ast.Node, parent d2ast.Node) {
-			if isNilNode(n) || fail != nil {
+			if IsNilNode(n) || fail != nil {
 				return
 			}
 			nodes++
@@ -220,7 +212,7 @@ func c02Oracle(u16 bool) eng.Oracle {
 			if kp, ok := n.(*d2ast.KeyPath); ok {
 				for _, sb := range kp.Path {
 					s := sb.Unbox()
-					if isNilNode(s) {
+					if IsNilNode(s) {
 						continue
 					}
 					sr := s.GetRange()
@@ -299,14 +291,14 @@ func utf16LE(units []uint16) string {
 func init() {
 	corpusPhase := func(w *eng.W, oracles ...string) {
 		w.Phase("corpus+single-token-neighbours", func() {
-			for _, src := range corpus() {
+			for _, src := range Corpus() {
 				for _, o := range oracles {
 					w.Eval(o, src)
 				}
 				if len(src) > 1500 {
 					continue
 				}
-				for _, nb := range tokenNeighbours(src) {
+				for _, nb := range TokenNeighbours(src) {
 					for _, o := range oracles {
 						w.Eval(o, nb)
 					}
@@ -324,8 +316,8 @@ func init() {
 			for k := 0; k <= kb; k++ {
 				k := k
 				w.Phase(fmt.Sprintf("runes<=%d", k), func() {
-					seqs(sigmaR, k, func(s []string) {
-						in := join(s)
+					Seqs(SigmaR, k, func(s []string) {
+						in := Join(s)
 						w.Eval("parse", in)
 						if k <= kb-1 {
 							w.Eval("parse16", in)
@@ -335,10 +327,10 @@ func init() {
 				})
 			}
 			w.Phase("raw-bytes<=3", func() {
-				al := append(append([]string{}, sigmaRaw...), "a", "{", "\"", "\n", ":", "|", "'", "#", "-", ">", "[", ".")
+				al := append(append([]string{}, SigmaRaw...), "a", "{", "\"", "\n", ":", "|", "'", "#", "-", ">", "[", ".")
 				for k := 1; k <= 3+w.Pick(0, 1); k++ {
-					seqs(al, k, func(s []string) {
-						in := join(s)
+					Seqs(al, k, func(s []string) {
+						in := Join(s)
 						w.Eval("parse", in)
 						w.Eval("parse16", in)
 						w.Eval("entry", in)
@@ -352,7 +344,7 @@ func init() {
 					for i := range units {
 						idx[i] = string(rune(i))
 					}
-					seqs(idx, k, func(s []string) {
+					Seqs(idx, k, func(s []string) {
 						us := make([]uint16, len(s))
 						for i, x := range s {
 							us[i] = units[int(x[0])]
@@ -367,8 +359,8 @@ func init() {
 			for k := 1; k <= tk; k++ {
 				k := k
 				w.Phase(fmt.Sprintf("tokens<=%d", k), func() {
-					seqs(sigmaT, k, func(s []string) {
-						in := join(s)
+					Seqs(SigmaT, k, func(s []string) {
+						in := Join(s)
 						w.Eval("parse", in)
 						if k < tk {
 							w.Eval("entry", in)
@@ -403,8 +395,8 @@ func init() {
 			for k := 1; k <= kb; k++ {
 				k := k
 				w.Phase(fmt.Sprintf("runes<=%d", k), func() {
-					seqs(sigmaR, k, func(s []string) {
-						in := join(s)
+					Seqs(SigmaR, k, func(s []string) {
+						in := Join(s)
 						w.Eval("pos8", in)
 						w.Eval("pos16", in)
 					})
@@ -414,8 +406,8 @@ func init() {
 			for k := 1; k <= tk; k++ {
 				k := k
 				w.Phase(fmt.Sprintf("tokens<=%d", k), func() {
-					seqs(sigmaT, k, func(s []string) {
-						in := join(s)
+					Seqs(SigmaT, k, func(s []string) {
+						in := Join(s)
 						w.Eval("pos8", in)
 						w.Eval("pos16", in)
 					})
@@ -426,50 +418,3 @@ func init() {
 	})
 }
 
-// tokenNeighbours: all single-token deletions, duplications and adjacent swaps, tokens split at the
-// boundaries of the real parser's node ranges (falls back to whitespace/punctuation split).
-func tokenNeighbours(src string) []string {
-	cuts := map[int]bool{0: true, len(src): true}
-	if m, _ := parse(src); m != nil {
-		d2ast.Walk(m, func(n d2ast.Node) bool {
-			if isNilNode(n) {
-				return false
-			}
-			r := n.GetRange()
-			if r.Start.Byte >= 0 && r.Start.Byte <= len(src) {
-				cuts[r.Start.Byte] = true
-			}
-			if r.End.Byte >= 0 && r.End.Byte <= len(src) {
-				cuts[r.End.Byte] = true
-			}
-			return true
-		})
-	}
-	for i := 0; i < len(src); i++ {
-		switch src[i] {
-		case ' ', '\n', '{', '}', ':', ';', '[', ']', '(', ')', '.':
-			cuts[i] = true
-			cuts[i+1] = true
-		}
-	}
-	var cs []int
-	for c := range cuts {
-		cs = append(cs, c)
-	}
-	sortInts(cs)
-	var toks []string
-	for i := 0; i+1 < len(cs); i++ {
-		toks = append(toks, src[cs[i]:cs[i+1]])
-	}
-	var out []string
-	for i := range toks {
-		out = append(out, strings.Join(toks[:i], "")+strings.Join(toks[i+1:], ""))                // delete
-		out = append(out, strings.Join(toks[:i+1], "")+toks[i]+strings.Join(toks[i+1:], ""))       // duplicate
-		if i+1 < len(toks) {
-			out = append(out, strings.Join(toks[:i], "")+toks[i+1]+toks[i]+strings.Join(toks[i+2:], "")) // swap
-		}
-	}
-	return out
-}
-
-func sortInts(a []int) { sort.Ints(a) }
